@@ -1,73 +1,24 @@
-# Scratch fuzz: does listing before nesting / unrolling change the result (caches cleared before every observation)?
-import warnings, random, sys
-warnings.simplefilter('ignore')
-from qce_circuit import *
-from qce_circuit.structure.circuit_operations import *
-from qce_circuit.structure.intrf_circuit_operation import RelationLink, RelationType, MultiRelationLink
-F=FixedDurationStrategy
-def clear():
-    RelationLink.get_start_time.cache_clear(); MultiRelationLink.get_start_time.cache_clear()
-def sig(c):
-    clear()
-    ops = c.operations
-    clear()
-    return [(type(o).__name__, tuple((ch.id, ch.channel.name) for ch in o.channel_identifiers), o.start_time, o.end_time) for o in ops]
-def gen_prog(rng, depth=0):
-    n = rng.randint(1,5)
-    prog=[]
-    for i in range(n):
-        if depth<2 and rng.random()<0.3:
-            prog.append(('sub', rng.choice([1,1,2,3]), gen_prog(rng, depth+1)))
-        else:
-            kind = rng.choice(['wait','wait','bar','rx','cz'])
-            q = rng.randint(0,2); q2=(q+1+rng.randint(0,1))%3
-            dur = rng.choice([0.5,1.0,2.0,3.0])
-            rel = None
-            if prog and rng.random()<0.35:
-                rel = (rng.choice(list(RelationType)), rng.randrange(len(prog)))
-            prog.append((kind,q,q2,dur,rel))
-    return prog
-def build(prog, reps=1):
-    c = DeclarativeCircuit(repetition_strategy=FixedRepetitionStrategy(reps))
-    entries=[]
-    for cmd in prog:
-        if cmd[0]=='sub':
-            entries.append(c.add(build(cmd[2], cmd[1])))
-        else:
-            kind,q,q2,dur,rel = cmd
-            kw={}
-            if rel is not None and kind!='bar':
-                kw['relation']=RelationLink(entries[rel[1]], rel[0])
-            if kind=='wait': op=Wait(q, duration_strategy=F(dur), **kw)
-            elif kind=='bar': op=Barrier([q,q2])
-            elif kind=='rx': op=Rx180(q, **kw)
-            else: op=CPhase(q,q2, **kw)
-            entries.append(c.add(op))
-    return c
-seed=int(sys.argv[1]) if len(sys.argv)>1 else 0
-rng=random.Random(seed)
-diffs={'nest':0,'unroll':0,'flatten':0}
-N=400
-for t in range(N):
-    prog=gen_prog(rng)
-    try:
-        _chk=sig(build(prog))
-    except RecursionError:
-        print('RECURSION on plain build+list', prog); diffs.setdefault('rec',0); diffs['rec']+=1; continue
-    # nest
-    a=build(prog); o=DeclarativeCircuit(); o.add(Wait(0,duration_strategy=F(1.0))); o.add(a); sa=sig(o)
-    b=build(prog); _=sig(b); o2=DeclarativeCircuit(); o2.add(Wait(0,duration_strategy=F(1.0))); o2.add(b); sb=sig(o2)
-    if sa!=sb:
-        diffs['nest']+=1
-        if diffs['nest']<=2: print('NEST DIFF', prog, '\n ', sa, '\n ', sb)
-    a=build(prog); ua=sig(a.apply_modifiers())
-    b=build(prog); _=sig(b); ub=sig(b.apply_modifiers())
-    if ua!=ub:
-        diffs['unroll']+=1
-        if diffs['unroll']<=2: print('UNROLL DIFF', prog, '\n ', ua, '\n ', ub)
-    a=build(prog); m=a.apply_modifiers(); fa=sig(m.flatten())
-    b=build(prog); m=b.apply_modifiers(); _=sig(m); fb=sig(m.flatten())
-    if fa!=fb:
-        diffs['flatten']+=1
-        if diffs['flatten']<=2: print('FLATTEN DIFF', prog, '\n ', fa, '\n ', fb)
-print('seed',seed,'N',N,diffs)
+"""F23 (C04): a sub-circuit with an explicit JOINED_END relation (structure-level API).  The block is END-aligned with its referent,
+but listing hands the link down to its first operations, which are then END-aligned one by one; with an inner follower the block's
+frame and its operations' frame differ and the parent's duration mixes the two.
+Run: PYTHONPATH=/repo/src /venv/bin/python scratch/e26.py"""
+from qce_circuit.language.declarative_circuit import DeclarativeCircuit
+from qce_circuit.structure.intrf_circuit_operation import RelationLink, RelationType
+from qce_circuit.structure.intrf_circuit_operation_composite import CircuitCompositeOperation
+from qce_circuit.structure.registry_duration import FixedDurationStrategy
+from qce_circuit.structure.circuit_operations import Wait
+
+w = lambda q, d: Wait(q, duration_strategy=FixedDurationStrategy(d))
+c = DeclarativeCircuit()
+x = c.add(w(0, 0.5))
+block = CircuitCompositeOperation(relation=RelationLink(x, RelationType.JOINED_END))
+block.add(w(1, 1.0))
+block.add(w(1, 1.0))
+c.circuit_structure.add(block)
+c.add(w(1, 0.5))
+ops = c.operations
+for o in ops:
+    print(type(o).__name__, o.channel_identifiers[0].id, o.start_time, o.end_time)
+span = max(o.end_time for o in ops) - min(o.start_time for o in ops)
+print('circuit.duration =', c.duration, ' span of the listed operations =', span)
+print('block: start', c.composite_operations[0].start_time, 'duration', c.composite_operations[0].duration)
